@@ -3,6 +3,7 @@ CFG = {
         J("prod", "c15", timeout=2400),
         J("scaled", "c15-dims", imports="Base Stream Inst Run RunC15", shard=32),
         J("prod", "c15-blocks", timeout=1200),
+        J("prod", "c15-cli", script="tools/cli/c15_cli_job.py", needs_repo_bins=["mlar"], timeout=1200),
     ],
     "run_modules": ["RunC15"],
     "rule": "c15: production build with a counting global allocator: for each of the 4 layer combinations and each of {write to a counting sink, repair from a "
@@ -40,3 +41,8 @@ CFG = {
                     "the compression writer's size table grows by 4 bytes per BLOCK (4 MiB) of data: the property's bound ignores this term"],
     "level_note": "partial: buffer and table bounds proved on the model; the live heap is only measured by the job; trusted: Coq kernel, the harness and its counting allocator, the correspondence list of MemSize.v (which Rust field each component of the measure stands for)",
 }
+
+# round-3 seeds C15-m5 / C15-m6
+CFG["rule"] += ("; c15: every other read of the generator ends on an odd size (a pipe-like source: reads end anywhere); c15-cli (production mlar binary): peak resident "
+                "memory (wait4 rusage) of `mlar create` archiving a named pipe fed with 8 MiB and with 72 MiB (thorough 160 MiB; also with compression) and a regular "
+                "file of the same sizes: peak(big) <= peak(small) + 8 MiB")
